@@ -8,7 +8,7 @@ Paths == ndJsonDeserialize(IOEnv.PATHS)
 Kinds == {"null", "bool", "int", "float", "string", "empty-list", "list-of-strings", "list-of-maps", "empty-map", "map", "int-keyed-map", "nested-list", "repeated-strings", "repeated-maps",
           "odd-strings", "odd-string", "odd-map", "reset-tag", "override-tag"}
 Positions == {"single", "override-top", "override-base", "extended-base", "extending", "included",
-              "pair-map", "pair-list", "pair-string"}     \* the attribute present in both files: base of the given kind, override of the case kind
+              "pair-map", "pair-list", "pair-string", "extends-pair-map", "extends-pair-list", "extends-pair-string", "include-pair"}     \* the attribute present in both files: base of the given kind, override of the case kind
 SchemaKind(k) == CASE k \in {"empty-list", "list-of-strings", "list-of-maps", "nested-list", "odd-strings", "repeated-strings", "repeated-maps"} -> "array"
                    [] k \in {"empty-map", "map", "int-keyed-map", "odd-map", "override-tag"} -> "object"
                    [] k = "reset-tag" -> "null"
